@@ -1,7 +1,6 @@
 from __future__ import annotations
 
 import sys
-from collections import defaultdict
 from collections.abc import Mapping
 from copy import deepcopy
 from types import MappingProxyType
@@ -61,17 +60,17 @@ class StereoCondensedReactionGraph(StereoMolGraph, CondensedReactionGraph):
     """
 
     __slots__ = ("_atom_stereo_change", "_bond_stereo_change")
-    _atom_stereo_change: defaultdict[AtomId, ChangeDict[AtomStereo]]
-    _bond_stereo_change: defaultdict[Bond, ChangeDict[BondStereo]]
+    _atom_stereo_change: dict[AtomId, ChangeDict[AtomStereo]]
+    _bond_stereo_change: dict[Bond, ChangeDict[BondStereo]]
 
     def __init__(self, mol_graph: Optional[MolGraph] = None):
         super().__init__(mol_graph)
-        self._atom_stereo_change = defaultdict(ChangeDict[AtomStereo])
-        self._bond_stereo_change = defaultdict(ChangeDict[BondStereo])
-
         if mol_graph and isinstance(mol_graph, StereoCondensedReactionGraph):
-            self._atom_stereo_change.update(mol_graph._atom_stereo_change)
-            self._bond_stereo_change.update(mol_graph._bond_stereo_change)
+            self._atom_stereo_change = deepcopy(mol_graph._atom_stereo_change)
+            self._bond_stereo_change = deepcopy(mol_graph._bond_stereo_change)
+        else:
+            self._atom_stereo_change = {}
+            self._bond_stereo_change = {}
 
     def __hash__(self) -> int:
         if self.n_atoms == 0:
@@ -189,7 +188,10 @@ class StereoCondensedReactionGraph(StereoMolGraph, CondensedReactionGraph):
         if stereo_change is None:
             del self._atom_stereo_change[atom]
         else:
-            del self._atom_stereo_change[atom][stereo_change]
+            change_dict = self._atom_stereo_change[atom]
+            del change_dict[stereo_change]
+            if not change_dict:
+                del self._atom_stereo_change[atom]
 
     def delete_bond_stereo_change(
         self, bond: Iterable[AtomId], stereo_change: Optional[Change] = None
@@ -198,7 +200,10 @@ class StereoCondensedReactionGraph(StereoMolGraph, CondensedReactionGraph):
         if stereo_change is None:
             del self._bond_stereo_change[bond]
         else:
-            del self._bond_stereo_change[bond][stereo_change]
+            change_dict = self._bond_stereo_change[bond]
+            del change_dict[stereo_change]
+            if not change_dict:
+                del self._bond_stereo_change[bond]
 
     def active_atoms(self, additional_layer: int = 0) -> set[AtomId]:
         """
@@ -252,9 +257,7 @@ class StereoCondensedReactionGraph(StereoMolGraph, CondensedReactionGraph):
             super().relabel_atoms(mapping, copy=copy)
         )
 
-        atom_stereo_change: defaultdict[AtomId, ChangeDict[AtomStereo]] = (
-            defaultdict(ChangeDict[AtomStereo])
-        )
+        atom_stereo_change: dict[AtomId, ChangeDict[AtomStereo]] = {}
 
         for atom, stereo_change_dict in self._atom_stereo_change.items():
             for stereo_change, atom_stereo in stereo_change_dict.items():
@@ -266,11 +269,11 @@ class StereoCondensedReactionGraph(StereoMolGraph, CondensedReactionGraph):
                     ),
                     atom_stereo.parity,
                 )
-                atom_stereo_change[mapping[atom]][stereo_change] = new_stereo
+                atom_stereo_change.setdefault(
+                    mapping[atom], ChangeDict[AtomStereo]()
+                )[stereo_change] = new_stereo
 
-        bond_stereo_change: defaultdict[Bond, ChangeDict[BondStereo]] = (
-            defaultdict(ChangeDict[BondStereo])
-        )
+        bond_stereo_change: dict[Bond, ChangeDict[BondStereo]] = {}
 
         for bond, stereo_change_dict in self._bond_stereo_change.items():
             for stereo_change, bond_stereo in stereo_change_dict.items():
@@ -283,7 +286,9 @@ class StereoCondensedReactionGraph(StereoMolGraph, CondensedReactionGraph):
                     ),
                     bond_stereo.parity,
                 )
-                bond_stereo_change[new_bond][stereo_change] = new_stereo
+                bond_stereo_change.setdefault(
+                    new_bond, ChangeDict[BondStereo]()
+                )[stereo_change] = new_stereo
 
         if copy is True:
             relabeled_scrg._atom_stereo_change = atom_stereo_change
